@@ -42,6 +42,23 @@ pub fn install_panic_hook() {
     }));
 }
 
+// Ask the kernel to acknowledge received segments at once.  The server does not set
+// TCP_NODELAY, so a second small write to a client whose kernel is still delaying the
+// ACK of the first one would sit in the server's socket for ~40 ms (Nagle x delayed ACK).
+pub fn quickack(s: &TcpStream) {
+    use std::os::unix::io::AsRawFd;
+    let one: libc::c_int = 1;
+    unsafe {
+        libc::setsockopt(
+            s.as_raw_fd(),
+            libc::IPPROTO_TCP,
+            libc::TCP_QUICKACK,
+            &one as *const _ as *const libc::c_void,
+            std::mem::size_of::<libc::c_int>() as libc::socklen_t,
+        );
+    }
+}
+
 pub fn take_panics() -> Vec<String> {
     std::mem::take(&mut *PANICS.lock().unwrap())
 }
@@ -320,15 +337,17 @@ impl Session {
         // let the connection tasks see EOF and finish
         let deadline = Instant::now() + Duration::from_millis(500);
         loop {
+            let notified = verif::NOTIFY.notified();
+            tokio::pin!(notified);
+            notified.as_mut().enable();
             let done = {
                 let reg = verif::REG.lock().unwrap();
-                reg.conns.values().all(|r| r.ended || r.dropped)
+                reg.conns.values().all(|r| r.dropped)
             };
             if done || Instant::now() > deadline {
                 break;
             }
-            let n = verif::NOTIFY.notified();
-            let _ = tokio::time::timeout(Duration::from_millis(20), n).await;
+            let _ = tokio::time::timeout(Duration::from_millis(20), notified).await;
         }
         self.handle.abort();
         let _ = self.handle.await;
@@ -341,6 +360,7 @@ impl Session {
         let dest: SocketAddr = format!("127.0.0.1:{}", self.port).parse().unwrap();
         let stream = sock.connect(dest).await.map_err(|e| e.to_string())?;
         stream.set_nodelay(true).ok();
+        quickack(&stream);
         let local = stream.local_addr().map_err(|e| e.to_string())?.to_string();
         if let Some(old) = self.clients.remove(id) {
             self.retired.push(old.local);
@@ -538,7 +558,12 @@ impl Session {
                         c.stream = None;
                         out.push(json!({"to": id, "k": "s", "c": "EOF", "cl": "", "src": "", "a": []}));
                     }
-                    Ok(Ok(n)) => c.rbuf.extend_from_slice(&buf[..n]),
+                    Ok(Ok(n)) => {
+                        c.rbuf.extend_from_slice(&buf[..n]);
+                        if let Some(st) = c.stream.as_ref() {
+                            quickack(st);
+                        }
+                    }
                     Ok(Err(_)) => {
                         c.eof = true;
                         c.stream = None;
